@@ -1,5 +1,5 @@
-(* C11 -- navigation and iterators agree with the tree: on every arena that is the pre-order
-   encoding of a tree (Arena d t), each link accessor, axis, element variant, text/tail, root_element
+(* C11 -- navigation and iterators agree with the tree: every parsed document is an arena (Arena' d t:
+   the pre-order encoding of a well-formed document tree, NavParse.v), and on every arena each link accessor, axis, element variant, text/tail, root_element
    and iterator of the model's API is the corresponding function of t, and the double-ended iterators
    implement the deque specification for every sequence of operations.
    Statements are pinned here (copied verbatim from the proof files by tools/pin_props.py);
@@ -10,7 +10,7 @@ Import ListNotations.
 From RX Require Import Generated.
 From RX.Model Require Import Base CharClass Stream Tokenizer Doc Builder Parse Api.
 From RX.Spec Require Import Tree Deque.
-From RX.Proofs Require Import NavEnc NavLinks NavIter NavAxes NavElem.
+From RX.Proofs Require Import NavEnc NavLinks NavIter NavAxes NavElem NavParse.
 Open Scope N_scope.
 
 (* ---- Proofs/NavLinks.v ---- *)
@@ -126,6 +126,64 @@ Theorem C11_nav_last_children :
   axis_list d AxLastChildren id = Ok (last_chain id s).
 Proof. exact nav_last_children. Qed.
 Print Assumptions C11_nav_last_children.
+
+(* ---- Proofs/NavParse.v ---- *)
+Theorem C11_parse_default_arena :
+  forall text d,
+  parse_default text = Ok d -> exists t, Arena' d t /\ wf_doc_tree t.
+Proof. exact parse_default_arena. Qed.
+Print Assumptions C11_parse_default_arena.
+
+Theorem C11_parse_arena' :
+  forall text opt d,
+  parse text opt = Ok d -> len_N (d_nodes d) <= 4294967295 ->
+  exists t, Arena' d t /\ wf_doc_tree t.
+Proof. exact parse_arena'. Qed.
+Print Assumptions C11_parse_arena'.
+
+Theorem C11_parse_ids_dense' :
+  forall text opt d,
+  parse text opt = Ok d -> len_N (d_nodes d) <= 4294967295 ->
+  exists t, Arena' d t /\
+    map (fun e => fst (fst e)) (table t) = N_range 0 (N.to_nat (len_N (d_nodes d))).
+Proof. exact parse_ids_dense'. Qed.
+Print Assumptions C11_parse_ids_dense'.
+
+Theorem C11_parse_descendants_preorder' :
+  forall text opt d,
+  parse text opt = Ok d -> len_N (d_nodes d) <= 4294967295 ->
+  forall id, id < len_N (d_nodes d) ->
+  exists hi, descendants d id = Ok {| it_lo := id; it_hi := hi |} /\
+             id < hi /\ hi <= len_N (d_nodes d) /\
+             sit_list {| it_lo := id; it_hi := hi |} = N_range id (N.to_nat (hi - id)) /\
+             forall ops, run_slice ops {| it_lo := id; it_hi := hi |} =
+                         deque_run ops (N_range id (N.to_nat (hi - id))).
+Proof. exact parse_descendants_preorder'. Qed.
+Print Assumptions C11_parse_descendants_preorder'.
+
+Theorem C11_parse_children_rev' :
+  forall text opt d,
+  parse text opt = Ok d -> len_N (d_nodes d) <= 4294967295 ->
+  forall id it, id < len_N (d_nodes d) -> children d id = Ok it ->
+  exists l, children_list d id = Ok l /\ NoDup l /\
+    forall ops, Forall (fun o => o = DNext \/ o = DNextBack) ops ->
+                run_children d ops it = Ok (deque_run ops l).
+Proof. exact parse_children_rev'. Qed.
+Print Assumptions C11_parse_children_rev'.
+
+Theorem C11_parse_root_element' :
+  forall text opt d,
+  parse text opt = Ok d -> len_N (d_nodes d) <= 4294967295 ->
+  exists i, root_element d = Ok i /\ parent d i = Ok (Some 0).
+Proof. exact parse_root_element'. Qed.
+Print Assumptions C11_parse_root_element'.
+
+Theorem C11_parse_nav_total' :
+  forall text opt d,
+  parse text opt = Ok d -> len_N (d_nodes d) <= 4294967295 ->
+  forall id, id < len_N (d_nodes d) -> nav_total d id.
+Proof. exact parse_nav_total'. Qed.
+Print Assumptions C11_parse_nav_total'.
 
 (* ---- Proofs/NavElem.v ---- *)
 Theorem C11_nav_has_siblings :
